@@ -23,7 +23,7 @@ def main():
     if with_neg:
         schemas = [schema.str.regex(r"[^a]{6}"), schema.str.regex(r"x[^0-9a-z]+"), schema.list(schema.str.regex(r"[^\w]")).len(3)]
     out = {"schemas": [repr(s) for s in schemas], "runs": {}}
-    for k in (0, 7, 123456789, "seed", 3.5):
+    for k in (0, 7, 123456789, "seed", 3.5, b"d42-seed", bytearray(b"\x00\x01seed"), -5, 2 ** 70, ""):
         seqs = []
         for _ in range(2):
             Random().set_seed(k)
